@@ -89,7 +89,7 @@ func init() {
 			if c.Thorough() {
 				nb, ns, lim = 96, 32, Limits{MaxStates: 20000, MaxSteps: 60000, MaxVisits: 4, MaxDepth: 48}
 			}
-			ruleShapeFaults(shapeConfig{label: "hostile input", keep: func(string) bool { return false }, extra: hostileEntries, floor: 29,
+			ruleShapeFaults(shapeConfig{label: "hostile input", keep: func(string) bool { return false }, extra: hostileEntries, floor: 31,
 				override: hostileParams(nb, ns), hostile: true, lim: lim})(c)
 		},
 	)
@@ -446,6 +446,9 @@ var hostileEntries = []string{
 	"encoding/internal/wkbcommon.readPoint", "encoding/internal/wkbcommon.readMultiPoint", "encoding/internal/wkbcommon.readLineString",
 	"encoding/internal/wkbcommon.readMultiLineString", "encoding/internal/wkbcommon.readPolygon", "encoding/internal/wkbcommon.readMultiPolygon",
 	"encoding/internal/wkbcommon.readCollection",
+	// (Feature / FeatureCollection are not entries: their nested geometries are produced by (*Geometry).UnmarshalJSON
+	// through encoding/json, which this model cannot replay; the geometry decoders themselves are entries)
+	"geojson.(*Geometry).UnmarshalJSON", "geojson.(*Geometry).UnmarshalBSON",
 	"encoding/wkt.Unmarshal", "encoding/wkt.UnmarshalPoint", "encoding/wkt.UnmarshalMultiPoint", "encoding/wkt.UnmarshalLineString",
 	"encoding/wkt.UnmarshalMultiLineString", "encoding/wkt.UnmarshalPolygon", "encoding/wkt.UnmarshalMultiPolygon", "encoding/wkt.UnmarshalCollection",
 }
